@@ -35,7 +35,9 @@ example : guardLt { key := 2, d := 2, i := 5 } { key := 1, d := 1, i := 1 } := b
 /-! ### process level: who is served, with which wake-up, and what a priority change does
 
 `frontStep w g gd` is the part of `cmb_resourceguard_signal` that concerns the guard's own waiting list
-(`guardSignal (fuel+1) w g = observers.foldl (guardSignal fuel) (frontStep w g gd)`, see `signal_is_front_then_observers`);
+(`guardSignal (fuel+1) w g = observers.foldl (fwdSignal fuel) (frontStep w g gd)`, see `signal_is_front_then_observers`;
+`fwdSignal fuel w o` is the delivery of the forwarded signal to observer `o`: a plain `guardSignal` unless `o` is the guard of a
+condition, which gets `condSignal` — Props/C13 `forwarded_signal_is_condition_signal`);
 `grant w g q' k` is the world in which the queue of `g` is `q'` and the wake-up (aRes, k, SUCCESS) is pending at the
 current time with the waiter's current priority (`grant_event`). `abs q` is the waiting set as a keyed priority queue
 (C02). -/
@@ -44,7 +46,7 @@ theorem signal_is_front_then_observers (fuel : Nat) (w : World) (g : Nat) :
     guardSignal (fuel + 1) w g =
       match w.guards[g]? with
       | none => w
-      | some gd => gd.observers.foldl (fun w o => guardSignal fuel w o) (frontStep w g gd) :=
+      | some gd => gd.observers.foldl (fun w o => fwdSignal fuel w o) (frontStep w g gd) :=
   guardSignal_succ fuel w g
 
 /-- the wake-up of a grant: one new event (aRes, key, SUCCESS) at the current time with the waiter's current priority;
